@@ -113,7 +113,7 @@ class C02(PropBase):
                 step["ref"] = c[0]
                 step["mod"] = c[3]
             if "peer_failure" in sw and rng.random() < sw["peer_failure"]:
-                step["fail"] = {"side": rng.choice(["enc", "dec"]), "k": rng.randint(1, 2)}
+                step["fail"] = {"side": rng.choice(["enc", "dec"]), "k": rng.randint(1, 2), "flavour": rng.choice(["runtime", "value"])}
             if "stack" in sw and rng.random() < 0.2:
                 step["depth"] = rng.randint(1, 40)
             steps.append(step)
@@ -171,7 +171,7 @@ class C02(PropBase):
             sess.faults["peer_failure"] += 1
             sess.fault_fired_before = True
             if fail["side"] == "enc":
-                f = peers.Failing(enc_f, fail["k"])
+                f = peers.Failing(enc_f, fail["k"], fail.get("flavour", "runtime"))
                 outs = [sess.guarded(sess.call, step, typelib.encode, v, t=T, encoder=f) for _ in range(fail["k"] + 1)]
                 bad = outs[fail["k"] - 1]
                 ref = sess.guarded(sess.call, step, typelib.encode, v, t=T, encoder=enc_f)
@@ -201,7 +201,7 @@ class C02(PropBase):
         if e2.ok:
             b = e2.value
             if fail and fail["side"] == "dec":
-                f = peers.Failing(dec_f, fail["k"])
+                f = peers.Failing(dec_f, fail["k"], fail.get("flavour", "runtime"))
                 outs = [sess.guarded(sess.call, step, typelib.decode, T, b, decoder=f) for _ in range(fail["k"] + 1)]
                 bad = outs[fail["k"] - 1]
                 if bad.ok or not isinstance(bad.exc, peers.PeerFailure):
